@@ -56,6 +56,11 @@ def main():
         run = runner.Run(pid, sys.argv[2:], scratch)
         try:
             mod = importlib.import_module(name)
+            if getattr(mod, "MEM_LIMIT", None):
+                # checks that feed generated expressions to the simplifier / evaluator: unbounded allocation by the code under test
+                # must surface as MemoryError (a classifiable exception), here and in every worker, not as an OOM kill of the machine
+                import resource
+                resource.setrlimit(resource.RLIMIT_AS, (mod.MEM_LIMIT, mod.MEM_LIMIT))
             if run.replay_path:
                 rc = run.do_replay(mod)
             else:
